@@ -46,6 +46,9 @@ def run_one(patch, tier, seed, plans):
                 if "concurrent" in c:
                     minim.append({"class": d["class"], "concurrent": [{k: inv["selection"].get(k) for k in ("units", "constants", "io")} for inv in c["concurrent"]], "preempt_permille": c["preempt_permille"], "minimisation_evals": d["minimisation"]["evaluations"]})
                     continue
+                if "edge_program" in c:
+                    minim.append({"class": d["class"], "edge_program": c["edge_program"], "table": (d.get("evidence") or {}).get("table")})
+                    continue
                 if "header_alone" in c:
                     minim.append({"class": d["class"], "header": c["header_alone"], "toolchain": c["toolchain"]})
                     continue
